@@ -36,6 +36,9 @@ enum Kind {
     K_W_STOP,        // a = signal: synthetic 'stopped' status
     K_W_EXIT,        // a = exit status: synthetic terminal status
     K_W_SIGNAL,      // a = signal, b = core flag: synthetic terminal status
+    // plugin chain changes made by a test while the run is under way (C17)
+    K_PLUGIN_INSTALL, // a = plugin index (a plugin group with args[2] = 1 is 'late': not installed before the run)
+    K_PLUGIN_REMOVE,  // a = plugin index: TestRegistry::removePluginByName
     K_COUNT
 };
 const char* kindName(int k);
